@@ -12,75 +12,10 @@ use lrpar::RecoveryKind;
 use lrtable::{from_yacc, Minimiser};
 
 /// LR(1)-but-not-LALR(1) families and grammars whose merges are discovered late
-/// k contexts x m rules that all derive the same token string; context i ends rule j with a
-/// terminator chosen by a random injective map. States reached over the common string have m kernel
-/// items and are reached from k predecessors: identical maps are merged, clashing ones (the same
-/// terminator for different rules) must stay apart, partially agreeing ones are the interesting case
-fn general_contexts(rng: &mut Rng) -> String {
-    let m = rng.range(2, 6);
-    let k = rng.range(2, 5);
-    let body = if rng.chance(1, 4) { "'c' 'c'" } else { "'c'" };
-    let mut alts = Vec::new();
-    let mut prev: Vec<Vec<usize>> = Vec::new();
-    let mut nextq = 0usize;
-    for i in 0..k {
-        // the terminator map of this context: a fresh block of terminators (weakly compatible with
-        // everything: merged, lookaheads united), a copy of an earlier map (merged, nothing changes) or an
-        // earlier map with two entries exchanged (must stay apart)
-        let mode = if prev.is_empty() { 0 } else { rng.below(4) };
-        let map: Vec<usize> = match mode {
-            0 | 1 => {
-                let v: Vec<usize> = (nextq..nextq + m).collect();
-                nextq += m;
-                v
-            }
-            2 => prev[rng.below(prev.len())].clone(),
-            _ => {
-                let mut v = prev[rng.below(prev.len())].clone();
-                let a = rng.below(m);
-                let b = (a + 1 + rng.below(m - 1)) % m;
-                v.swap(a, b);
-                v
-            }
-        };
-        for (j, q) in map.iter().enumerate() {
-            alts.push(format!("'p{}' X{} 'q{}'", i, j, q));
-        }
-        // extra alternatives so that the predecessor states differ in size (their item maps then have
-        // different capacities and iterate shared items in different orders)
-        for e in 0..rng.below(9) {
-            alts.push(format!("'p{}' 'y{}'", i, e));
-        }
-        prev.push(map);
-    }
-    // the X rules are `stride` productions apart: item maps hash (production, dot) with FNV, whose low
-    // bits follow the production number, so consecutive productions never share a bucket while
-    // productions 4 or 8 apart do — and only then does the iteration order depend on insertion order
-    let stride = *rng.pick(&[1usize, 1, 2, 4, 4, 8, 8, 3]);
-    let ndummy = (stride - 1) * m;
-    if ndummy > 0 {
-        alts.push("'w' W".to_string());
-    }
-    let mut s = format!("%start S\n%%\nS: {};\n", alts.join(" | "));
-    let mut d = 0;
-    for j in 0..m {
-        s.push_str(&format!("X{}: {};\n", j, body));
-        for _ in 1..stride {
-            s.push_str(&format!("D{}: 'z{}';\n", d, d));
-            d += 1;
-        }
-    }
-    if ndummy > 0 {
-        let ds: Vec<String> = (0..ndummy).map(|i| format!("D{}", i)).collect();
-        s.push_str(&format!("W: {};\n", ds.join(" | ")));
-    }
-    s
-}
-
 fn families(rng: &mut Rng) -> String {
     let pick = rng.below(9);
     match pick {
-        6..=8 => general_contexts(rng),
+        6..=8 => grammar::general_contexts(rng),
         0 => {
             // S: a A d | b B d | a B e | b A e; A: c; B: c  generalised to k contexts
             let k = rng.range(2, 4);
